@@ -229,7 +229,8 @@ func (gw *inclusiveGateway) Element() schema.FlowNodeInterface {
 }
 
 type flowTracker struct {
-	traces     <-chan tracing.ITrace
+	tracer     tracing.ITracer
+	traces     chan tracing.ITrace
 	shutdownCh chan bool
 	flows      map[id.Id]schema.Id
 	activityCh chan struct{}
@@ -243,6 +244,7 @@ func (tracker *flowTracker) activity() <-chan struct{} {
 
 func newFlowTracker(tracer tracing.ITracer, element *schema.InclusiveGateway) *flowTracker {
 	tracker := flowTracker{
+		tracer:     tracer,
 		traces:     tracer.Subscribe(),
 		shutdownCh: make(chan bool),
 		flows:      make(map[id.Id]schema.Id),
@@ -271,7 +273,14 @@ func (tracker *flowTracker) run() {
 	reachedNode := false
 	for {
 		select {
-		case trace := <-tracker.traces:
+		case trace, ok := <-tracker.traces:
+			if !ok {
+				// the tracer has terminated and closed the subscription
+				if locked {
+					tracker.lock.Unlock()
+				}
+				return
+			}
 			locked, notify, reachedNode = tracker.handleTrace(locked, trace, notify, reachedNode)
 			// continue draining
 			continue
@@ -279,6 +288,9 @@ func (tracker *flowTracker) run() {
 			if locked {
 				tracker.lock.Unlock()
 			}
+			// stop being a subscriber, otherwise the tracer eventually blocks on this
+			// channel that nobody reads any more
+			tracker.tracer.Unsubscribe(tracker.traces)
 			return
 		default:
 			// Nothing else is coming in, unlock if locked
@@ -297,12 +309,21 @@ func (tracker *flowTracker) run() {
 			// for an event without doing busy work (this `default` clause)
 		}
 		select {
-		case trace := <-tracker.traces:
+		case trace, ok := <-tracker.traces:
+			if !ok {
+				if locked {
+					tracker.lock.Unlock()
+				}
+				return
+			}
 			locked, notify, reachedNode = tracker.handleTrace(locked, trace, notify, reachedNode)
 		case <-tracker.shutdownCh:
 			if locked {
 				tracker.lock.Unlock()
 			}
+			// stop being a subscriber, otherwise the tracer eventually blocks on this
+			// channel that nobody reads any more
+			tracker.tracer.Unsubscribe(tracker.traces)
 			return
 		}
 
